@@ -333,7 +333,8 @@ Holds(f, i) ==
     [] OTHER -> (f = "Conf_" \o nd.a) => Conf(nd)
 
 (* after a first-generation vault has been overwritten only that fact is judged: everything later in the behaviour is its consequence *)
-Judge == \A k \in 1..Len(Formulas) : Holds(Formulas[k], cur) \/ (Formulas[k] # "C09_BorrowV1VaultIdsFresh" /\ ~Sane(cur)) \/ PrintT(<<"FAIL", Formulas[k], cur>>)
+Judge == LET sane == Sane(cur) IN
+         \A k \in 1..Len(Formulas) : (Formulas[k] # "C09_BorrowV1VaultIdsFresh" /\ ~sane) \/ Holds(Formulas[k], cur) \/ PrintT(<<"FAIL", Formulas[k], cur>>)
 
 (* ---------------------------------------------------------------- antecedent counters (vacuity control) *)
 Count(Q(_)) == Cardinality({i \in 1..NLog : Q(Nd(i))})
